@@ -129,7 +129,7 @@ c.ensures("spec.be(result) == self._e and len(result) == self._group.element_siz
 c = REG.contract(G + ".random_scalar")
 c.params(self="obj:" + G, entropy_f="entropy").returns("int").pure().refines("GroupSpec.random_scalar")
 c.ensures("0 <= result and result < self.q", name="range", tags="C11 C04")
-c.ensures("result == spec.rr(self.q, entropy_f, 0)", name="rejection-sampling", tags="C11 C03")
+c.ensures("result == spec.rr(self.q, entropy_f, 0)", name="rejection-sampling", tags="C11 C03 C16")
 c.ensures("spec.entropy_sizes_all(self.scalar_size_bytes)", name="block-size", tags="C11")
 
 c = REG.contract(G + ".__init__")
